@@ -1,31 +1,36 @@
 #!/usr/bin/env python3
-"""Runs the registered checks against every kept seeded change (applies it to /repo, runs, undoes) and
-records which rules report it in meta.json. Development helper; never called by a registered check."""
+"""Runs the registered checks against every kept seeded change (each applied to a scratch worktree of /repo that is
+removed at once; four at a time) and records which rules report it in meta.json. Development helper; never called
+by a registered check.  usage: seeded_run.py [binary] [only-prefix]"""
 import json, os, re, subprocess, sys, glob
+from concurrent.futures import ThreadPoolExecutor
 os.chdir('/verif')
+BIN = sys.argv[1] if len(sys.argv) > 1 else './pqlcheck'
+ONLY = sys.argv[2] if len(sys.argv) > 2 else ''
 def sh(cmd): return subprocess.run(cmd, shell=True, capture_output=True, text=True)
-assert sh('git -C /repo status --short').stdout.strip() == '', '/repo not clean'
-rows = []
-for d in sorted(glob.glob('/verif/seeded/C*/*/')):
+def rules(out): return sorted(set(re.findall(r'^  violation (\S+) ', out, re.M)))
+def props(out): return sorted(set(re.findall(r'^VIOLATION property=(\S+)', out, re.M)))
+def one(d):
     meta_p = os.path.join(d, 'meta.json')
     meta = json.load(open(meta_p))
     pid = meta['property']
-    r = sh(f'git -C /repo apply {d}patch.diff')
+    w = '/tmp/sr_' + d.replace('/verif/seeded/', '').replace('/', '')
+    sh(f'git -C /repo worktree remove --force {w}')
+    r = sh(f'git -C /repo worktree add -q --detach {w} HEAD && git -C {w} apply {d}patch.diff')
     if r.returncode != 0:
-        print('APPLY FAILED', d, r.stderr); continue
+        sh(f'git -C /repo worktree remove --force {w}')
+        return (d, 'APPLY FAILED', r.stderr[:200])
     try:
-        own = sh(f'./pqlcheck check {pid} --no-evidence')
-        allr = sh('./pqlcheck check all --no-evidence')
+        own = sh(f'VERIF_DIR=/verif {BIN} check {pid} --no-evidence --repo {w}')
+        allr = sh(f'VERIF_DIR=/verif {BIN} check all --no-evidence --repo {w}')
     finally:
-        sh('git -C /repo checkout -- .')
-    def rules(out):
-        return sorted(set(re.findall(r'^  violation (\S+) ', out, re.M)))
-    def props(out):
-        return sorted(set(re.findall(r'^VIOLATION property=(\S+)', out, re.M)))
+        sh(f'git -C /repo worktree remove --force {w}')
     meta['own_check'] = {'exit': own.returncode, 'rules': rules(own.stdout), 'checker_error': 'CHECKER-ERROR' in own.stderr}
     meta['all_checks'] = {'properties_alarming': props(allr.stdout), 'rules': rules(allr.stdout)}
     meta['caught'] = own.returncode == 1
     json.dump(meta, open(meta_p, 'w'), indent=1)
-    rows.append((d.replace('/verif/seeded/', ''), meta['caught'], meta['own_check']['rules'], meta['all_checks']['properties_alarming']))
-    print(rows[-1]); sys.stdout.flush()
-assert sh('git -C /repo status --short').stdout.strip() == ''
+    return (d.replace('/verif/seeded/', ''), meta['caught'], meta['own_check']['rules'], meta['all_checks']['properties_alarming'])
+dirs = [d for d in sorted(glob.glob('/verif/seeded/C*/*/')) if d.replace('/verif/seeded/', '').startswith(ONLY)]
+with ThreadPoolExecutor(max_workers=4) as ex:
+    for row in ex.map(one, dirs):
+        print(row); sys.stdout.flush()
